@@ -93,7 +93,7 @@ CLAIMS = {
     },
     "C16": {
         "text": "Bounded symbolic check: the determinism machine DT (3-region parallel state whose regions all have children named idle/busy, a nested compound, deep and shallow history of the parallel state, re-entry, region-local and broadcast events, context updates) is run on a symbolic event sequence under a symbolic hash layout - the hash values of a group of K StateNodes are permuted by a symbolic Lehmer code, which permutes the iteration order of every set[StateNode] the engine holds - on both engines; the full trace (ordered entry/exit/transition actions with event types, configuration and context after every event) must equal the identity-layout sync trace, so neither layout nor engine is observable. In addition the machine is run in child processes under a solver-chosen PYTHONHASHSEED (1..16 quick / 1..64 thorough) with natural address hashing on both engines and the pure transition() API: traces equal across seeds and across the three APIs.",
-        "note": "Trusts CrossHair/z3 and the hash-pinning stub (vf/env.py): distinct small ints below the table size make CPython's set iteration ascending in hash, so a permutation of the ints is a permutation of iteration order; address-based hashing of a real run is one such layout. One machine (15 nodes), sequences of 3 (quick) / 4 events, groups of K=4 (quick) / 4-6 nodes permuted at a time. The PYTHONHASHSEED part is a sample of seed values run natively (a process boundary cannot be traced). Generated-id independence is outside.",
+        "note": "Trusts CrossHair/z3 and the hash-pinning stub (vf/env.py): distinct small ints below the table size make CPython's set iteration ascending in hash, so a permutation of the ints is a permutation of iteration order; address-based hashing of a real run is one such layout. One machine (15 nodes), sequences of 3 (quick) / 4 events, groups of K=4 (quick) / 4-5 nodes permuted at a time. The PYTHONHASHSEED part is a sample of seed values run natively (a process boundary cannot be traced). Generated-id independence is outside.",
         "design": "DESIGN.md section 4 C16",
     },
     "C17": {
